@@ -12,6 +12,14 @@ WHAT = {"parse": "an expectation line was not read as the documented grammar say
         "roundtrip": "the canonical rendering of a parsed expectation does not parse back to an equivalent expectation"}
 
 
+def _printable(text, esc):
+    """nothing in the text that this escaper would rewrite (the known finding is about exactly these expressions)"""
+    import unicodedata
+    if esc == "ascii":
+        return all(0x20 <= ord(c) < 0x7f for c in text)
+    return not any(unicodedata.category(c).startswith("C") for c in text)
+
+
 def toknames(line):
     return [t[0] if t[0] not in ("K", "Q") else t[0] + ":" + t[1] for t in line]
 
@@ -41,7 +49,7 @@ def classify(r, phase):
             keys.add("roundtrip:equal-expression-ends-in-modifier-like-text")
         elif o["kind"] == "equal" and o["expr"].endswith(" (no-eol)"):
             keys.add("roundtrip:equal-expression-ending-in-(no-eol)")
-        elif o["kind"] == "escaped" and "\\" in o["expr"]:
+        elif o["kind"] == "escaped" and "\\" in o["expr"] and _printable(o["expr"], t["esc"]):
             keys.add("roundtrip:escaped-kind-with-literal-backslash")
         elif o["kind"] in ("glob", "no-eol", "regex") and rendered_expr != o["expr"]:
             keys.add(f"roundtrip:{o['kind']}-expression-rewritten-by-{t['esc']}-escaper")
